@@ -81,7 +81,10 @@ func conservation(sc *step.Case, r *step.Result, v *fw.V) {
 }
 
 func divergence(rule string) bool {
-	for _, p := range []string{"pending-", "ends-", "storm-", "not-complete", "waiter-blocked", "noflow-error-", "vars-mismatch", "early-", "cease-count", "token-conservation", "condition-error-trace-missing"} {
+	for _, p := range []string{"pending-", "ends-", "storm-", "not-complete", "waiter-blocked", "noflow-error-", "vars-mismatch", "early-", "cease-count", "token-conservation", "condition-error-trace-missing",
+		// (where the engine's token game differs from the reference's, a loop around the diverging gateways runs
+		// another number of times, and with it a condition in it that cannot be evaluated)
+		"unexpected-error-trace"} {
 		if strings.HasPrefix(rule, p) {
 			return true
 		}
